@@ -385,7 +385,12 @@ def execute(plan):
         if gd is not None:
             if run.violation('GLOBAL', act, gd, f"GLOBAL: event {ev_i} ({act}) disturbed process-wide state '{gd}'", ev_i):
                 break
-        out.states.add(sha([act, ev.get('cfg', {}).get('return_type'), len(run.frs)]))
+        c_ = ev.get('cfg') or {}
+        # abstract state: what was asked (the full configuration of a fragment call, not the peptide) by whom
+        out.states.add(sha([act, len(run.frs), 'direct' if ev.get('via') == 'direct' else 'fragmenter',
+                            [c_.get(k_) for k_ in ('ion_types', 'charges', 'isotopes', 'water_loss', 'ammonia_loss',
+                                                   'max_losses', 'return_type', 'precision')],
+                            len(c_.get('losses') or [])]))
     out.shape = sha(shape)
     out.nontrivial = sum(1 for e in plan['events'] if e['act'] == 'frag') >= 2 and out.oracle_checks > 3
     return out
@@ -743,4 +748,5 @@ ASSUMPTIONS = [
     "the search samples histories; a clean batch is evidence, not proof",
 ]
 STUB_NOTE = ""
+STATE_MEASURE = 'the configuration of a fragment call (ion types, charges, isotopes, loss flags, number of custom losses, max_losses, return type, precision), who made it (pt.fragment or a Fragmenter) and how many Fragmenter objects are alive'
 FAMILY_STARTS = [0]
